@@ -34,6 +34,9 @@ var c16Scens = []c16Scen{
 		"c.vuego": `<section><p v-if="cF" data-m="w0">x</p><b v-else v-once data-m="m1">e</b><i data-m="w1"></i></section>`}, WantOther: map[string]int{"m1": 1, "w0": 0, "w1": 3}},
 	{Label: "two-else-members-side-by-side", Files: map[string]string{"p.vuego": `<p v-if="cF" data-m="w0">x</p><b v-else v-once data-m="m1">e</b><p v-if="cF" data-m="w1">y</p><i v-else v-once data-m="m2">f</i>`}, WantOther: map[string]int{"m1": 1, "m2": 1, "w0": 0, "w1": 0}},
 	{Label: "chain-head-in-loop", Files: map[string]string{"p.vuego": `<div v-for="i in items"><b v-if="cT" v-once data-m="m1">e</b><i v-else data-m="w0">z</i></div>`}, WantOther: map[string]int{"m1": 1, "w0": 0}},
+	{Label: "root-template-of-component-marked", Files: map[string]string{
+		"p.vuego": `<template include="c.vuego"></template><div v-for="i in items"><template include="c.vuego"></template></div><i data-m="w1"></i>`,
+		"c.vuego": `<template v-once><style data-m="m1">.a{}</style><script data-m="m2">var a;</script></template>`}, WantOther: map[string]int{"m1": 1, "m2": 1, "w1": 1}},
 	{Label: "page-slot-content-for-layout", Files: map[string]string{
 		"p.vuego":            "---\nlayout: main\n---\n<p data-m=\"w0\">page</p><template #side><b v-once data-m=\"m1\">s1</b><b v-once data-m=\"m2\">s2</b></template>",
 		"layouts/main.vuego": `<main><aside><slot name="side"></slot></aside></main>`}, WantFile: map[string]int{"m1": 1, "m2": 1, "w0": 0}},
